@@ -10,6 +10,7 @@
                 (2^32): the stated price of the 32-bit tag                                *)
 From ZV.Common Require Import Base.
 From ZV.C08 Require Import Model ProofsInv ProofsStep ProofsRefute ProofsRun.
+From ZV.C08 Require Import ModelFixedCap ProofsFixedCapRun Cases.
 Open Scope N_scope.
 
 (* each block is owned by at most one thread at a time, under every interleaving *)
@@ -159,3 +160,141 @@ Theorem treiber_uaf_refuted : exists sc, tfault (trun (tinit 2) sc) = true.
 Proof. exact treiber_uaf_refuted_proof. Qed.
 Check treiber_uaf_refuted : exists sc, tfault (trun (tinit 2) sc) = true.
 Print Assumptions treiber_uaf_refuted.
+
+(* ==========================================================================================
+   FixedCapacityMemoryPool (src/memory/fixed_capacity_pool.rs): one generation-tagged free list
+   per size class, all blocks initially on the list of the largest class, requests of a
+   smaller class walk up the classes (allocate_by_splitting, recursively) and free onto their
+   own class.  c : fcfg (fc_code ncls bs total clear csz is the code), frun c (finit n c) sc the
+   state after n threads executed schedule sc; fnc s < fc_gmod c: fewer than 2^32 successful
+   compare-exchanges in total.
+   ========================================================================================== *)
+
+(* each block is owned by at most one thread at a time, under every interleaving *)
+Theorem fixedcap_no_double_owner :
+  forall c, fcfg_wf c -> forall n sc, fnc (frun c (finit n c) sc) < fc_gmod c ->
+  forall t1 t2 l1 l2 b, t1 <> t2 ->
+    nth_error (fthr (frun c (finit n c) sc)) t1 = Some l1 ->
+    nth_error (fthr (frun c (finit n c) sc)) t2 = Some l2 ->
+    In b (fholds l1) -> ~ In b (fholds l2).
+Proof. intros c (H1 & H2 & H3). exact (fc_no_double_owner_proof c H1 H2 H3). Qed.
+Check fixedcap_no_double_owner :
+  forall c, fcfg_wf c -> forall n sc, fnc (frun c (finit n c) sc) < fc_gmod c ->
+  forall t1 t2 l1 l2 b, t1 <> t2 ->
+    nth_error (fthr (frun c (finit n c) sc)) t1 = Some l1 ->
+    nth_error (fthr (frun c (finit n c) sc)) t2 = Some l2 ->
+    In b (fholds l1) -> ~ In b (fholds l2).
+Print Assumptions fixedcap_no_double_owner.
+
+(* no block is lost and a freed block is available exactly once: every block of the pool is on exactly one
+   class's free list (as the code traverses it) and in nobody's hands, or in some thread's hands and on no list *)
+Theorem fixedcap_no_block_lost :
+  forall c, fcfg_wf c -> forall n sc, fnc (frun c (finit n c) sc) < fc_gmod c ->
+  let s := frun c (finit n c) sc in
+  forall k, k < fc_total c -> let b := k * fc_bs c in
+    exists frees : nat -> list N,
+      (forall i, fwalk s (length (frees i)) i = Some (frees i)) /\
+      ((exists i, In b (frees i) /\ (forall j, j <> i -> ~ In b (frees j)) /\
+                  forall t l, nth_error (fthr s) t = Some l -> ~ In b (fholds l)) \/
+       ((forall i, ~ In b (frees i)) /\ exists t l, nth_error (fthr s) t = Some l /\ In b (fholds l))).
+Proof. intros c (H1 & H2 & H3). exact (fc_no_block_lost_proof c H1 H2 H3). Qed.
+Check fixedcap_no_block_lost :
+  forall c, fcfg_wf c -> forall n sc, fnc (frun c (finit n c) sc) < fc_gmod c ->
+  let s := frun c (finit n c) sc in
+  forall k, k < fc_total c -> let b := k * fc_bs c in
+    exists frees : nat -> list N,
+      (forall i, fwalk s (length (frees i)) i = Some (frees i)) /\
+      ((exists i, In b (frees i) /\ (forall j, j <> i -> ~ In b (frees j)) /\
+                  forall t l, nth_error (fthr s) t = Some l -> ~ In b (fholds l)) \/
+       ((forall i, ~ In b (frees i)) /\ exists t l, nth_error (fthr s) t = Some l /\ In b (fholds l))).
+Print Assumptions fixedcap_no_block_lost.
+
+(* every class's free list ends in LIST_TAIL after finitely many links, without repetition (no cycle), consists of
+   blocks of the pool (no dangling link) that no thread owns, and no block is on two lists *)
+Theorem fixedcap_free_lists_well_formed :
+  forall c, fcfg_wf c -> forall n sc, fnc (frun c (finit n c) sc) < fc_gmod c ->
+  let s := frun c (finit n c) sc in
+  exists frees : nat -> list N,
+    (forall i, fwalk s (length (frees i)) i = Some (frees i) /\ NoDup (frees i)) /\
+    (forall i b, In b (frees i) -> fblock c b /\
+        (forall j, j <> i -> ~ In b (frees j)) /\
+        (forall t l, nth_error (fthr s) t = Some l -> ~ In b (fholds l))).
+Proof. intros c (H1 & H2 & H3). exact (fc_free_lists_well_formed_proof c H1 H2 H3). Qed.
+Check fixedcap_free_lists_well_formed :
+  forall c, fcfg_wf c -> forall n sc, fnc (frun c (finit n c) sc) < fc_gmod c ->
+  let s := frun c (finit n c) sc in
+  exists frees : nat -> list N,
+    (forall i, fwalk s (length (frees i)) i = Some (frees i) /\ NoDup (frees i)) /\
+    (forall i b, In b (frees i) -> fblock c b /\
+        (forall j, j <> i -> ~ In b (frees j)) /\
+        (forall t l, nth_error (fthr s) t = Some l -> ~ In b (fholds l))).
+Print Assumptions fixedcap_free_lists_well_formed.
+
+(* a thread never holds the same block twice *)
+Theorem fixedcap_holds_nodup :
+  forall c, fcfg_wf c -> forall n sc, fnc (frun c (finit n c) sc) < fc_gmod c ->
+  forall t l, nth_error (fthr (frun c (finit n c) sc)) t = Some l -> NoDup (fholds l).
+Proof. intros c (H1 & H2 & H3). exact (fc_holds_nodup_proof c H1 H2 H3). Qed.
+Check fixedcap_holds_nodup :
+  forall c, fcfg_wf c -> forall n sc, fnc (frun c (finit n c) sc) < fc_gmod c ->
+  forall t l, nth_error (fthr (frun c (finit n c) sc)) t = Some l -> NoDup (fholds l).
+Print Assumptions fixedcap_holds_nodup.
+
+(* the count of every class equals the length of its free list once all threads are done *)
+Theorem fixedcap_count_at_quiescence :
+  forall c, fcfg_wf c -> forall n sc, fnc (frun c (finit n c) sc) < fc_gmod c ->
+  let s := frun c (finit n c) sc in fquiescent s ->
+  forall i, exists free, fwalk s (length free) i = Some free /\ fcount s i = N.of_nat (length free) mod W32.
+Proof. intros c (H1 & H2 & H3). exact (fc_count_at_quiescence_proof c H1 H2 H3). Qed.
+Check fixedcap_count_at_quiescence :
+  forall c, fcfg_wf c -> forall n sc, fnc (frun c (finit n c) sc) < fc_gmod c ->
+  let s := frun c (finit n c) sc in fquiescent s ->
+  forall i, exists free, fwalk s (length free) i = Some free /\ fcount s i = N.of_nat (length free) mod W32.
+Print Assumptions fixedcap_count_at_quiescence.
+
+(* the statistics add up at quiescence, for every schedule (no hypothesis on the generation): active_blocks is the
+   number of blocks in the threads' hands, allocations = deallocations + active_blocks, peak_blocks >= active_blocks *)
+Theorem fixedcap_stats_at_quiescence :
+  forall c n sc, let s := frun c (finit n c) sc in fquiescent s ->
+  fs_active (fstats s) = N.of_nat (length (concat (map fheld (fthr s)))) /\
+  fs_alloc (fstats s) = fs_dealloc (fstats s) + fs_active (fstats s) /\
+  fs_active (fstats s) <= fs_peak (fstats s).
+Proof. exact fstats_at_quiescence_proof. Qed.
+Check fixedcap_stats_at_quiescence :
+  forall c n sc, let s := frun c (finit n c) sc in fquiescent s ->
+  fs_active (fstats s) = N.of_nat (length (concat (map fheld (fthr s)))) /\
+  fs_alloc (fstats s) = fs_dealloc (fstats s) + fs_active (fstats s) /\
+  fs_active (fstats s) <= fs_peak (fstats s).
+Print Assumptions fixedcap_stats_at_quiescence.
+
+(* the hypothesis on the generation holds for every schedule of fewer than 2^32 steps *)
+Theorem fixedcap_generation_bound_by_steps :
+  forall c n sc, N.of_nat (length sc) < fc_gmod c -> fnc (frun c (finit n c) sc) < fc_gmod c.
+Proof. exact fc_steps_bound_generation. Qed.
+Check fixedcap_generation_bound_by_steps :
+  forall c n sc, N.of_nat (length sc) < fc_gmod c -> fnc (frun c (finit n c) sc) < fc_gmod c.
+Print Assumptions fixedcap_generation_bound_by_steps.
+
+(* the configurations FixedCapacityMemoryPool::new accepts satisfy the side conditions *)
+Theorem fixedcap_code_cfg_wf :
+  forall ncls bs total clear csz, 0 < bs -> 0 < total -> total * bs <= W32 - 1 ->
+  fcfg_wf (fc_code ncls bs total clear csz).
+Proof. exact fc_code_wf. Qed.
+Check fixedcap_code_cfg_wf :
+  forall ncls bs total clear csz, 0 < bs -> 0 < total -> total * bs <= W32 - 1 ->
+  fcfg_wf (fc_code ncls bs total clear csz).
+Print Assumptions fixedcap_code_cfg_wf.
+
+(* with a bare offset as head (the code before fix 8b0a274) two threads end up owning block 16 *)
+Theorem fixedcap_untagged_refuted :
+  exists sc b l0 l1,
+    let s := frun fc_aba_cfg (finit 2 fc_aba_cfg) sc in
+    nth_error (fthr s) 0 = Some l0 /\ nth_error (fthr s) 1 = Some l1 /\
+    In b (fholds l0) /\ In b (fholds l1).
+Proof. exact fixedcap_untagged_refuted_proof. Qed.
+Check fixedcap_untagged_refuted :
+  exists sc b l0 l1,
+    let s := frun fc_aba_cfg (finit 2 fc_aba_cfg) sc in
+    nth_error (fthr s) 0 = Some l0 /\ nth_error (fthr s) 1 = Some l1 /\
+    In b (fholds l0) /\ In b (fholds l1).
+Print Assumptions fixedcap_untagged_refuted.
